@@ -9,7 +9,9 @@ func (g *Grammar) Nullable() []bool {
 	var exprNull func(e *Expr) bool
 	exprNull = func(e *Expr) bool {
 		switch e.Kind {
-		case KLit, KRef, KNeg:
+		case KRef:
+			return e.T == "EOF" // a reference to EOF matches at the end of input without consuming
+		case KLit, KNeg, KPars:
 			return false
 		case KLook:
 			return true
@@ -151,7 +153,9 @@ func (g *Grammar) LeftRecursive() (bool, int) {
 
 func exprNullWith(g *Grammar, null []bool, e *Expr) bool {
 	switch e.Kind {
-	case KLit, KRef, KNeg:
+	case KRef:
+		return e.T == "EOF"
+	case KLit, KNeg, KPars:
 		return false
 	case KLook:
 		return true
@@ -281,7 +285,10 @@ func GenRecSystem(t *rapid.T) (*Grammar, map[string]bool) {
 			}
 			return SubU(u)
 		}
-		switch rapid.IntRange(0, 4).Draw(t, "np") {
+		switch rapid.IntRange(0, 5).Draw(t, "np") {
+		case 5:
+			used["after_EOF_reference"] = true
+			return Ref("EOF")
 		case 0:
 			used["after_optional_prefix"] = true
 			return Group("?", leaf())
